@@ -47,7 +47,9 @@ func runC47(c *core.Ctx) {
 			}
 			for _, ev := range []string{"parseElement", "checkInitialAccount"} {
 				ev := ev
-				cv := core.NewCheckedVia(fn, func(in ssa.Instruction, cc *ssa.CallCommon) bool { return core.CallDesc(cc).Name == ev && loop.Body[in.Block()] })
+				cv := core.NewCheckedVia(fn, func(in ssa.Instruction, cc *ssa.CallCommon) bool {
+					return core.CallDesc(cc).Name == ev && loop.Body[in.Block()]
+				})
 				q := core.PathQ{Fn: fn, FromBlk: body, Via: cv.Via, ViaEdge: cv.ViaEdge, Target: func(in ssa.Instruction, _ *ssa.BasicBlock) bool { return in == loop.Header.Instrs[0] }}
 				esc, p := q.Escape()
 				c.Check(esc == nil && len(cv.Calls) > 0 && len(cv.Unhandled) == 0, "C47/process-passes-all-checks", "accountsParser.process/per-entry-"+ev, fn.Pos(),
@@ -67,7 +69,9 @@ func runC47(c *core.Ctx) {
 			c.Check(acc, "C47/process-passes-all-checks", "accountsParser.process/supply-accumulated", fn.Pos(), "each entry's Supply is added to the running total", "the entries' supplies are not accumulated")
 		}
 		mustPassChecked(c, fn, "C47/process-passes-all-checks", "accountsParser.process/duplicates", nil,
-			func(in ssa.Instruction, cc *ssa.CallCommon) bool { return core.CallDesc(cc).Name == "checkForDuplicates" },
+			func(in ssa.Instruction, cc *ssa.CallCommon) bool {
+				return core.CallDesc(cc).Name == "checkForDuplicates"
+			},
 			core.NilReturn, nil, "checkForDuplicates succeeds before nil is returned")
 		okTotal := false
 		for _, r := range core.Returns(fn) {
